@@ -4,6 +4,7 @@ CONSTANTS
   Funcs = {"f", "g"}
   MaxAttempts = 1
   ClearOnFail = TRUE
+  ClearOnReadFail = TRUE
   UseLock = TRUE
 INVARIANT CtxClearedWhenIdle
 INVARIANT NoResidue
